@@ -43,9 +43,36 @@ def analyse(raw: bytes):
     return {"r": r, "ident_ok": ident_ok, "end": end, "checksum": checksum, "crc": crc, "data_start": first_lf + 1}
 
 
-def judge(obj, raw: bytes, how: str, must_be_valid: bool):
+ACCESS = ["none", "none", "identification_line", "payload+as_bytes", "expected_checksum", "str", "decode", "autodecode", "is_valid-twice"]
+
+
+def touch(obj, access: str):
+    """Use other parts of the object's public surface BEFORE asking is_valid: the answer must not depend on it."""
+    try:
+        if access == "identification_line":
+            obj.identification_line  # noqa: B018
+        elif access == "payload+as_bytes":
+            obj.payload, obj.as_bytes, obj.message_type, len(obj)  # noqa: B018
+        elif access == "expected_checksum":
+            obj.expected_checksum, obj.end_line  # noqa: B018
+        elif access == "str":
+            str(obj), obj.data_lines  # noqa: B018
+        elif access == "decode":
+            dlde.decode_p1_readout(obj)
+        elif access == "autodecode":
+            from han import autodecoder
+
+            autodecoder.AutoDecoder().decode_message(obj)
+        elif access == "is_valid-twice":
+            obj.is_valid  # noqa: B018
+    except Exception:  # noqa: BLE001 - these accessors may legitimately raise on damaged readouts; only is_valid is judged
+        pass
+
+
+def judge(obj, raw: bytes, how: str, must_be_valid: bool, access: str = "none"):
     """S1/S2/S4 on one DataReadout object; S3 when must_be_valid. Returns 'valid'|'invalid'|'raised'."""
     a = analyse(raw)
+    touch(obj, access)
     try:
         valid = obj.is_valid
     except Exception as exc:  # noqa: BLE001 - C14's subject; C04 neither passes nor fails the case
@@ -123,6 +150,7 @@ def oracle(case) -> Info:
     """case = (base readout bytes, mutation, cuts)."""
     base, mut, cuts = case[0], tuple(case[1]), tuple(case[2])
     hist_kind = case[3] if len(case) > 3 else "fresh"
+    access = case[4] if len(case) > 4 else "none"
     a0 = analyse(base)
     assert a0["ident_ok"] and a0["end"] is not None and (a0["checksum"] is None or a0["checksum"] == a0["crc"]), "generator produced a bad base readout"
     kind = mut[0]
@@ -171,11 +199,11 @@ def oracle(case) -> Info:
     raw = bytes(raw)
     untouched = kind == "none" or (kind == "checksum" and mut[1] == "true")
     a = analyse(raw)
-    classes = [f"mut:{kind}" + (f":{mut[1]}" if kind in ("checksum", "ident") else "")]
+    classes = [f"mut:{kind}" + (f":{mut[1]}" if kind in ("checksum", "ident") else ""), f"access-first:{access}"]
     results = []
     obj = deliver_direct(raw)
     if obj is not None:
-        results.append(judge(obj, raw, "DataReadout(bytes)", untouched and raw.isascii()))
+        results.append(judge(obj, raw, f"DataReadout(bytes) [after {access}]", untouched and raw.isascii(), access))
     elif untouched:
         fail(f"DataReadout() refused a well-formed readout {raw!r:.200}", sig="s3-ctor")
     got = deliver_reader(raw, cuts, history_bytes(hist_kind, len(base)))
@@ -187,7 +215,7 @@ def oracle(case) -> Info:
             fail(f"reader returned {len(got)} readouts for one well-formed readout {raw!r:.200}", sig="s3-reader-count")
         for o in got:
             ob = guarded(lambda o=o: o.as_bytes)
-            results.append(judge(o, ob, "ModeDReader.read", untouched and raw.isascii() and ob == raw))
+            results.append(judge(o, ob, f"ModeDReader.read [after {access}]", untouched and raw.isascii() and ob == raw, access))
     for r in results:
         classes.append(f"is_valid:{r}")
     wrong_checksum = a["checksum"] is not None and a["checksum"] != a["crc"]
@@ -216,7 +244,7 @@ def case_st(draw):
         mut = ("ident", draw(st.sampled_from(["lower", "nobaud", "long", "ctrl", "digitman", "highbit", "highbit", "trailing-8bit-space", "class-boundary-char", "class-boundary-char"])), draw(st.booleans()), draw(st.integers(0, 63)))
     else:
         mut = (kind,)
-    return (base, mut, draw(GH.cuts_st()), draw(st.sampled_from(HISTORIES)))
+    return (base, mut, draw(GH.cuts_st()), draw(st.sampled_from(HISTORIES)), draw(st.sampled_from(ACCESS)))
 
 
 def build() -> Check:
@@ -234,6 +262,7 @@ def build() -> Check:
         ),
         assumptions=[
             "CRC reference = bit-serial CRC-16/ARC (vlib/ref_fcs.py).",
+            "Before is_valid is asked, a drawn other part of the object's surface is used (identification_line, payload/as_bytes, expected_checksum, str, decode_p1_readout, AutoDecoder.decode_message, is_valid itself): the verdict must not depend on the order of access.",
             "The end character is the '!' that starts the last line; the checksum claim is made only when the text after it is exactly 4 hex digits.",
             "Identification well-formedness uses the harness's own, deliberately permissive pattern (any printable ID of <=16 chars).",
             "If is_valid raises, C04 neither passes nor fails the case (counted as is_valid:raised; raising is C14's subject).",
